@@ -474,7 +474,7 @@ def check(run: Run, prog: Program, cy: CyProgram, sites):
                      and s.kernel.name in ("_cross_transitivity", "_nsi_cross_transitivity",
                                            "_cross_local_clustering",
                                            "_nsi_cross_local_clustering"))
-    run.floor("X3 call sites", n, 4)
+    run.floor("X3 call sites", n, 1)
     x4(run, prog)
     x6(run, prog)
     run.rule("X7", "results built through igraph's order-normalising subgraph() are "
